@@ -2741,6 +2741,14 @@ class Partitions(Expr):
     def _task(self, index: int):
         return (self.frame._name, self.partitions[index])
 
+    def rewrite(self, kind: str):
+        if kind == "tune":
+            # ``partitions`` are positions in the current partitioning of the
+            # frame; "tune" rewrites (IO fusion, split_out adjustment) change
+            # the number of partitions and must not be applied below us
+            return self
+        return super().rewrite(kind)
+
     def _simplify_down(self):
         from dask_expr import SetIndexBlockwise
         from dask_expr._indexing import LocBase
